@@ -83,6 +83,9 @@ var c20OnNet func(*vnet.Network)
 // c20Restart, when set, makes the history compare a restarted node on sampled blocks and receives the outcomes.
 var c20Restart func(chain string, height int64, diff string)
 
+// c20ChosenT0 is the date the first execution of history 0 chose for the wall-clock probe.
+var c20ChosenT0 int64
+
 // c20History runs history i and returns its block digests. realSeal: include ETH updates with the real ethash check.
 func c20History(i int, seed int64, realSeal bool, wallT0 int64) []blockDigest {
 	rng := rand.New(rand.NewSource(seed*15485863 + int64(i)))
@@ -190,6 +193,11 @@ func c20History(i int, seed int64, realSeal bool, wallT0 int64) []blockDigest {
 	// ---- wall-clock probe: a synthetic ETH header dated wallT0 (a few seconds ahead of the real clock when the first
 	// execution runs) in a block whose *virtual* time is wallT0 as well. The block time makes it acceptable; an
 	// implementation that consults the wall clock instead answers differently depending on when it is executed.
+	if wallT0 == -1 {
+		// first execution: the probe's date is chosen now (20 s ahead of the real clock) and reused by every replay
+		wallT0 = time.Now().Unix() + 20
+		c20ChosenT0 = wallT0
+	}
 	if wallT0 != 0 {
 		net.Now = time.Unix(wallT0, 0).UTC()
 		ethtypes.VerifSkipSeal = true
@@ -256,7 +264,7 @@ func TestC20(t *testing.T) {
 	exe, _ := os.Executable()
 	// the wall-clock probe of history 0 is dated 20 s ahead of the real clock now; the last fresh-process replay waits
 	// until the real clock has passed it
-	wallT0 := time.Now().Unix() + 20
+	wallT0 := int64(0) // chosen by the first execution of history 0 when it reaches the probe
 	tmpRoot, _ := os.MkdirTemp("", "c20-")
 	defer os.RemoveAll(tmpRoot)
 	type envCase struct {
@@ -278,7 +286,7 @@ func TestC20(t *testing.T) {
 		realSeal := i == 0 || mon.Tier() == "thorough"
 		t0 := int64(0)
 		if i == 0 {
-			t0 = wallT0
+			t0 = -1
 		}
 		c20Restart = func(chain string, h int64, diff string) {
 			rec.Judge("block-compared/restarted-node", i, chain, h)
@@ -291,6 +299,10 @@ func TestC20(t *testing.T) {
 		}
 		ref := c20History(i, seed, realSeal, t0)
 		c20Restart = nil
+		if i == 0 {
+			wallT0 = c20ChosenT0
+			t0 = wallT0
+		}
 		if realSeal {
 			rec.Count("eth-real-seal-blocks", 1)
 		}
